@@ -1310,6 +1310,11 @@ class Analyzer(Analysis):
             recv_key = vals[0][1] if (vals and vals[0] is not None and vals[0][0] == "ref") else None
             impl_self = (c.get("impl") or {}).get("self") if c.get("impl") else None
             tshort = _short(impl_self) if impl_self else None
+            if tshort is None and c.get("trait_item") and c["targs"]:
+                # a provided (default) trait method, e.g. WireFormat::write_compressed_to: Self is the first type argument
+                t0 = self.types[c["targs"][0]]
+                if t0["k"] == "adt":
+                    tshort = t0["name"].split("::")[-1]
             if writer is not None:
                 wafter = self.sym("wpos(%s)@%d'" % (writer, bi), (0, USIZE_HI))
                 st.store["wpos:" + writer] = ("lin", wafter)
